@@ -11,6 +11,7 @@ from __future__ import annotations
 
 import functools
 import json
+import os
 from pathlib import Path
 
 from harness.common import VERIF, Ctx, cbool, clist, copt, cz, parallel_workers
@@ -87,7 +88,7 @@ ENTITIES = {
          "exposure.timespan.begin": lambda t: EXP[t[0]]["_span"][0]},
         [(e,) for e in sorted(EXP)],
         wheres=[("exposure.seq_num > 1", lambda t: EXP[t[0]]["seq_num"] is not None and EXP[t[0]]["seq_num"] > 1),
-                ("exposure.exposure_time < 25 AND exposure > 104", lambda t: EXP[t[0]]["exposure_time"] is not None and EXP[t[0]]["exposure_time"] < 25 and t[0] > 104)],
+                ("exposure.exposure_time < 25.0 AND exposure > 104", lambda t: EXP[t[0]]["exposure_time"] is not None and EXP[t[0]]["exposure_time"] < 25 and t[0] > 104)],
         constraints={"instrument": lambda t: I.INSTR, "exposure": lambda t: t[0], "physical_filter": lambda t: EXP[t[0]]["physical_filter"],
                      "day_obs": lambda t: EXP[t[0]]["day_obs"], "band": lambda t: BAND[EXP[t[0]]["physical_filter"]]}),
     "DET": Entity(
@@ -196,7 +197,8 @@ def gen_cases(ctx: Ctx, size: int):
         where = None
         if ent.wheres and rng.random() < 0.3:
             where = rng.choice(ent.wheres)
-        spec = dict(ent.spec, order_by=ob, where=where[0] if where else "")
+        spec = dict(ent.spec, order_by=ob, where=where[0] if where else "",
+                    kwargs={"instrument": I.INSTR, **({"skymap": I.SKYMAP} if ent.name == "VP" else {})})
         n = len([r for r in ent.rows() if not where or where[1](r)])
         lims = limits_around(rng, page, n, 150 if ent.pp else n)
         if len(lims) > 8:
@@ -217,8 +219,7 @@ def gen_cases(ctx: Ctx, size: int):
                 bl.append([-L, rng.random() < 0.3])
             cases.append({"kind": "butler", "q": spec, "page": page, "factor": factor, "limits": bl, "meta": meta})
         else:
-            lspec = dict(spec, kwargs={"instrument": I.INSTR, **({"skymap": I.SKYMAP} if ent.name == "VP" else {})})
-            cases.append({"kind": "legacy", "q": lspec, "limits": lims[:6], "meta": meta})
+            cases.append({"kind": "legacy", "q": spec, "limits": lims[:6], "meta": meta})
     # butler API with an empty result: explain semantics
     for ent_name, w in (("VP", "visit = 99"), ("DET", "detector = 99"), ("FLF", "detector = 99")):
         ent = ENTITIES[ent_name]
@@ -328,6 +329,10 @@ class Judge:
     def fail(self, sig, case, what, **extra):
         rep = {"case": {k: v for k, v in case.items() if k != "meta"}, "meta": case.get("meta")}
         rep.update(extra)
+        self.ctx.hist("oracle_signatures", sig)
+        if os.environ.get("C16_DEBUG"):
+            with open(os.environ["C16_DEBUG"], "a") as fh:
+                fh.write(json.dumps({"sig": sig, "what": what, "rep": rep}, default=str)[:3000] + "\n")
         self.ctx.oracle_fail(sig, rep, what)
 
     def check_sorted(self, ent, keys, ids):
@@ -598,7 +603,11 @@ class Judge:
                     continue
                 got = sorted(tup(x) for x in got)
                 if got != exp:
-                    self.fail(f"spell:{api}:{nm}:{ent.name}", case, "constraint spelling selects different rows", spelling=nm, got=got[:10], want=exp[:10])
+                    # a constraint that contradicts itself only through an implied dimension value (e.g. visit=11, band='i')
+                    req = [k for k in merged if k in ("instrument", "skymap") or k in ent.idkeys]
+                    only_required = sorted(tup(r) for r in ent.rows() if all(ent.constraints[k](tup(r)) == merged[k] for k in req))
+                    kindc = "implied-conflict" if (not exp and got == only_required) else "rows"
+                    self.fail(f"spell:{api}:{nm}:{ent.name}:{kindc}", case, "constraint spelling selects different rows", spelling=nm, got=got[:10], want=exp[:10])
         if ent.pp or not res.get("ctx") or any(is_err(g) for g in res["ctx"]):
             return
         # model case: all rows of the entity, col 0 identity, one column per constraint key
